@@ -105,7 +105,7 @@ fn decode_in(dir: &str) -> J {
     for (t, k, d, o) in read_records(dir) {
         let dbn = idd.get(&d).cloned().unwrap_or("-".to_string());
         let kn = if o == 2 || o == 3 { "#".to_string() } else { idk.get(&k).cloned().unwrap_or("-".to_string()) };
-        recs.push(json!([t, dbn, kn, o]));
+        recs.push(json!([t, dbn, kn, o, d]));
     }
     let mut dbids = serde_json::Map::new();
     let mut nometa: Vec<String> = vec![];
@@ -121,6 +121,25 @@ fn decode_in(dir: &str) -> J {
     }
     nometa.sort();
     json!({"start": "ok", "valid": valid, "records": recs, "dbids": dbids, "nometa": nometa})
+}
+
+/// The same decoding through the identifier maps of the RUNNING node (what its catch-up builder would use).
+fn decode_live(node: &Node, dir: &str) -> J {
+    let idk = node.dbs.id_keys_map.read().map(|m| m.clone()).unwrap_or_default();
+    let idd = node.dbs.id_name_db_map.read().map(|m| m.clone()).unwrap_or_default();
+    let mut recs = vec![];
+    for (t, k, d, o) in read_records(dir) {
+        let dbn = idd.get(&d).cloned().unwrap_or("-".to_string());
+        let kn = if o == 2 || o == 3 { "#".to_string() } else { idk.get(&k).cloned().unwrap_or("-".to_string()) };
+        recs.push(json!([t, dbn, kn, o, d]));
+    }
+    let mut dbids = serde_json::Map::new();
+    if let Ok(map) = node.dbs.map.read() {
+        for (n, db) in map.iter() {
+            dbids.insert(n.clone(), json!(db.metadata.id));
+        }
+    }
+    json!({"start": "ok", "valid": true, "records": recs, "dbids": dbids, "nometa": []})
 }
 
 struct Run {
@@ -228,6 +247,13 @@ pub fn run_case(case: &J, workdir: &str, out: &mut dyn Write, n: usize) -> Resul
             for m2 in drain(&mut run.node.repl_rx) {
                 run.q.push_back(m2);
             }
+        }
+        // a command that touches the database table (accepted or refused): the log must still decode through
+        // the maps of the running node
+        if st.get("line").and_then(|l| l.as_str()).map(|l| l.starts_with("create-db")).unwrap_or(false) {
+            let ints = intents.lock().unwrap().clone();
+            let dec = decode_live(&run.node, &dir);
+            writeln!(out, "{}", json!({"ev":"check","kind":"live","run":id,"i":i,"dec":dec,"intents":intents_json(&ints)})).map_err(|e| e.to_string())?;
         }
     }
     nundb::verif::set_crash_hook(None);
